@@ -22,6 +22,11 @@ func gen(tier string, r *lib.Rand, emit func(string)) {
 	for _, s := range acclib.Rejections {
 		emit("load " + hex(s))
 	}
+	// keyword look-alike identifiers in every statement position, with and without the optional keyword
+	acclib.LookalikeCases(func(src string, want *ast.Chain) {
+		emit("parsex " + hex(src) + " " + acclib.EncScript(want))
+		emit("load " + hex(src))
+	})
 	// deep nesting: compared with the model up to depth `deep` (the Gallina parser is the un-memoised PEG,
 	// exponential in the depth), beyond that the implementation alone must answer within 2 s
 	deep := 12
@@ -116,5 +121,6 @@ func nontrivial(c, res string) bool {
 }
 
 func main() {
-	lib.Main(lib.Prop{ID: "C03", Gen: gen, Run: acclib.Run, Oracle: acclib.OracleC03, Nontrivial: nontrivial, PanicClass: acclib.PanicClass})
+	lib.Main(lib.Prop{ID: "C03", Gen: gen, Run: acclib.Run, Oracle: acclib.OracleC03, Nontrivial: nontrivial, PanicClass: acclib.PanicClass,
+		Neighbours: acclib.Neighbours("load")})
 }
